@@ -675,6 +675,9 @@ def solve_main(objfun, x0, argsf, xl, xu, projections, npt, rhobeg, rhoend, maxf
                 # Re-select knew, allowing knew=kopt this time
                 knew, exit_info = control.choose_point_to_replace(d, skip_kopt=False)
                 if exit_info is not None:
+                    # The trial point is abandoned here (quit or restart), so keep it in case it is the best point so far
+                    control.model.save_point(x, np.mean(rvec_list[:num_samples_run, :], axis=0), num_samples_run, control.nx,
+                                             x_in_abs_coords=True)
                     if exit_info.able_to_do_restart() and params("restarts.use_restarts") and params(
                             "restarts.use_soft_restarts"):
                         number_of_samples = max(nsamples(control.delta, control.rho, current_iter, nruns_so_far), 1)
